@@ -7,7 +7,7 @@ ID=$1; WT=$2
 SCR=/tmp/verif-confirm-$ID
 git -C /repo worktree remove --force $SCR 2>/dev/null
 git -C /repo worktree add -q --detach $SCR HEAD || exit 9
-sed "s#$WT#$SCR#g" $WT/_out/demo.py > $SCR/demo_confirm.py
+mkdir -p $SCR/_out; sed "s#$WT#$SCR#g" $WT/_out/demo.py > $SCR/demo_confirm.py
 ( cd $SCR && timeout 600 /venv/bin/python demo_confirm.py > /tmp/confirm-$ID-clean.log 2>&1 ); CLEAN=$?
 ( cd $SCR && git apply $WT/_out/patch.diff ) || { echo "patch does not apply"; git -C /repo worktree remove --force $SCR; exit 8; }
 ( cd $SCR && timeout 600 /venv/bin/python demo_confirm.py > /tmp/confirm-$ID-patched.log 2>&1 ); PATCHED=$?
